@@ -84,6 +84,11 @@ func (g *G) special(v reflect.Value, name string, depth int) (bool, error) {
 	pkg := t.PkgPath()
 	inTlb := strings.HasSuffix(pkg, "tongo/tlb")
 	inWallet := strings.HasSuffix(pkg, "tongo/wallet")
+	if Hook != nil {
+		if done, err := Hook(g, v, name, depth); done {
+			return true, err
+		}
+	}
 	switch {
 	case inTlb && name == "Maybe":
 		exists := depth > 0 && g.C.Bool("maybe")
